@@ -71,6 +71,18 @@ func (e *Exec) sprintf(args []Term, st *State) Term {
 
 func (e *Exec) intrinsic(name string, fn *types.Func, recvExpr ast.Expr, call *ast.CallExpr, c *Ctx, want int) ([]Term, bool) {
 	switch name {
+	case "golang.org/x/exp/slices.Contains", "slices.Contains":
+		a := e.evalArgs(call.Args, c)
+		if a[0].T.K == KSlice {
+			x := e.coerce(a[1], a[0].T.Elem, c.st)
+			bv := fmt.Sprintf("j!q%d", e.nextQ())
+			sn := a[0].S
+			if !isAtom(sn) {
+				sn = e.vc.Define("seq", e.Sort(a[0].T), a[0].S)
+			}
+			ss := e.Sort(a[0].T)
+			return []Term{{fmt.Sprintf("(exists ((%s Int)) (and (<= 0 %s) (< %s (len!%s %s)) (= (select (arr!%s %s) %s) %s)))", bv, bv, bv, ss, sn, ss, sn, bv, x.S), tBool}}, true
+		}
 	case "fmt.Sprintf", "fmt.Sprint", "fmt.Sprintln":
 		args := e.evalArgs(call.Args, c)
 		return []Term{e.sprintf(args, c.st)}, true
